@@ -407,6 +407,22 @@ where
 /// Do NOT use this any where but topological sort, we find the power level for the eventId
 /// at the eventId's generation (we walk backwards to `EventId`s most recent previous power level
 /// event).
+/// Verification hook: the sender power levels `reverse_topological_power_sort` computes when it visits the given events in
+/// this order (they share one creator cache).
+#[cfg(ruma_verif)]
+#[doc(hidden)]
+pub fn verif_sender_power_levels<E: Event>(
+    event_ids: &[&EventId],
+    rules: &AuthorizationRules,
+    fetch_event: impl Fn(&EventId) -> Option<E>,
+) -> Vec<std::result::Result<Int, String>> {
+    let creator_lock = OnceLock::new();
+    event_ids
+        .iter()
+        .map(|event_id| get_power_level_for_sender(event_id, rules, &creator_lock, &fetch_event))
+        .collect()
+}
+
 fn get_power_level_for_sender<E: Event>(
     event_id: &EventId,
     rules: &AuthorizationRules,
